@@ -344,7 +344,7 @@ class Ctx:
                 if v is None:
                     continue
                 n += 1
-                if n > 25:
+                if n > 400:
                     break
                 path = keep / f"{self.tier}-{n}.json"
                 path.write_text(json.dumps({"property": self.pid, **v}, indent=1, default=str))
